@@ -273,6 +273,20 @@ def gen_command(rng, max_events=8):
                 if a.lstrip("+").isdigit() and 1 <= int(a) <= cur:
                     joined.add(int(a))
                 tags.add("join")
+    # a pair's migration switched off and, later, on again with the SAME rate: two separate
+    # migrations with a gap, not one
+    if npop >= 2 and len(grid) >= 2 and rng.random() < 0.12:
+        a, b = rng.sample(range(1, npop + 1), 2)
+        r = 4 * N0 * rng.choice(MIGS)
+        i, j = sorted(rng.sample(range(len(grid)), 2))
+        if rng.random() < 0.6:
+            initial.append(["-m", str(a), str(b), spell(rng, r)])
+        else:
+            initial.append(["-ma"] + [("x" if x == y else (spell(rng, r) if (x, y) == (a, b) else "0")) for x in range(1, npop + 1) for y in range(1, npop + 1)])
+        events.append((i, ["-em", spell(rng, grid[i]), str(a), str(b), rng.choice(["0", "0.0"])]))
+        events.append((j, ["-em", spell(rng, grid[j]), str(a), str(b), spell(rng, r)]))
+        events.sort(key=lambda e: e[0])
+        tags.add("mig_off_on_same_rate")
     # most commands end every growth phase (a growing root deme cannot be represented)
     if events and rng.random() < 0.8:
         ti = max(t for t, _ in events)
